@@ -58,6 +58,34 @@ def code_under_test_panic(out):
     return None
 
 
+RACE_OWN = ('/pkg/metadata/', '/pkg/fingerprint/', '/pkg/ja3/', '/pkg/ja4/', '/pkg/hack/', '/pkg/proxyserver/',
+            '/pkg/reverseproxy/', '/pkg/certwatcher/', '/pkg/debug/')
+
+
+def race_concerns_fingerprint_data(report):
+    """C01-C07 speak of the data captured from a connection and of what is forwarded: a race report counts for them when
+    one of the two conflicting accesses happens — within its first three frames — in the project's own packages
+    (capture, metadata, fingerprint functions, proxy server, reverse-proxy handler, root package) or in
+    serverConn.processFrame, where the HTTP/2 frames are recorded. Races entirely inside the vendored HTTP/2 machinery
+    (e.g. the HPACK encoder) are not about that data."""
+    stacks = re.split(r'\n\s*\n', report)
+    for st in stacks:
+        if not re.search(r'(Read|Write|read|write) at 0x', st):
+            continue
+        lines = st.split('\n')
+        frames = []
+        for k, l in enumerate(lines):
+            m = re.match(r'^\s+(/\S+\.go):(\d+)', l)
+            if m and k > 0:
+                frames.append((lines[k - 1].strip(), m.group(1)))
+        for fn, path in frames[:3]:
+            if path.startswith(REPO + '/') and (any(x in path for x in RACE_OWN) or os.path.dirname(path) == REPO):
+                return True
+            if 'serverConn).processFrame' in fn:
+                return True
+    return False
+
+
 def newer(src_paths, target):
     if not os.path.exists(target):
         return True
